@@ -695,6 +695,40 @@ reset_value(void)
 	return (v[n++ % (sizeof(v) / sizeof(v[0]))]);
 }
 
+/*
+ * One more parse from an exit handler which was registered before getopt was
+ * first used: it runs after getopt's own exit-time clean-up.
+ */
+static int x_pending, x_opterr, x_first;
+static size_t x_table;
+static char * x_spec;
+
+static void
+parse_at_exit(void)
+{
+	struct av a;
+
+	if (!x_pending)
+		return;
+	av_build(&a, x_spec);
+	if (!x_first)
+		optreset = 1;
+	opterr = x_opterr;
+	evlen = 0;
+	nev = 0;
+	if (evbuf != NULL)
+		evbuf[0] = '\0';
+	maxev = av_maxev(&a);
+	watchdog(1);
+	capture(1);
+	tables[x_table](a.argc, a.argv, -1);
+	capture(0);
+	watchdog(0);
+	printf("R %s %d %zu\n", nev ? evbuf : "-", optind, nwarnlines);
+	fflush(stdout);
+	av_free(&a);
+}
+
 int
 main(void)
 {
@@ -702,6 +736,7 @@ main(void)
 	int first = 1;
 
 	vh_stdout_linebuf();
+	atexit(parse_at_exit);	/* before the first GETOPT call */
 	while (vh_readline(&L, stdin)) {
 		struct av a;
 		size_t t, pt;
@@ -709,6 +744,19 @@ main(void)
 
 		if (L.ntok == 0)
 			continue;
+		if (strcmp(vh_tok(&L, 0), "X") == 0) {
+			/* parsed from the exit handler, answered last */
+			if (x_pending || L.ntok != 4)
+				vh_die("bad X line");
+			x_table = (size_t)vh_tok_u(&L, 1);
+			x_opterr = (int)vh_tok_i(&L, 2);
+			x_spec = strdup(vh_tok(&L, 3));
+			if (x_table >= NTABLES || x_spec == NULL)
+				vh_die("bad X line");
+			x_first = first;
+			x_pending = 1;
+			continue;
+		}
 		if (strcmp(vh_tok(&L, 0), "G") != 0)
 			vh_die("bad op");
 		t = (size_t)vh_tok_u(&L, 1);
